@@ -310,7 +310,7 @@ func (cmd *mainCmd) Run(args []string) error {
 		}
 
 		var out bytes.Buffer
-		if err := format.Node(&out, fset, f); err != nil {
+		if err := formatNode(&out, fset, f); err != nil {
 			log.Printf("%s: failed: %v", filename, err)
 			errors = append(errors, fmt.Errorf("failed to rewrite %q: %v", filename, err))
 			continue
@@ -449,6 +449,19 @@ func newPatchRunner(fset *token.FileSet, patches []*engine.Program) *patchRunner
 		fset:    fset,
 		patches: patches,
 	}
+}
+
+// formatNode prints the rewritten file. Code generated from an ill-typed
+// patch can be malformed in ways that go/printer does not expect (for
+// example a name where an interface wants a method signature) and make it
+// panic. That is a failure for this file, not a crash of the whole run.
+func formatNode(out *bytes.Buffer, fset *token.FileSet, f *ast.File) (err error) {
+	defer func() {
+		if rec := recover(); rec != nil {
+			err = fmt.Errorf("%v", rec)
+		}
+	}()
+	return format.Node(out, fset, f)
 }
 
 func (r *patchRunner) Apply(filename string, f *ast.File) (fout *ast.File, comments []string, matched bool) {
